@@ -121,7 +121,14 @@ class Island(EvolutionaryOptimizer):
         return self._ea.diagnostics
 
     def _get_potential_hof_members(self):
+        self._evaluate_population_if_needed()
         return self.population
+
+    def _evaluate_population_if_needed(self):
+        # a hall of fame must not read the fitness of individuals that have not
+        # been evaluated (new island, after a migration, no generation evolved)
+        if not all(indv.fit_set for indv in self.population):
+            self.evaluate_population()
 
     def dump_fraction_of_population(self, fraction):
         """Dumps a portion of the population to a list
